@@ -196,8 +196,14 @@ func (r *rw) call(n *ast.CallExpr) ast.Expr {
 					switch name {
 					case "MutexLock", "MutexUnlock", "MutexTryLock", "RWMutexLock", "RWMutexUnlock", "RWMutexRLock", "RWMutexRUnlock",
 						"WaitGroupAdd", "WaitGroupDone", "WaitGroupWait", "WaitGroupGo", "OnceDo":
+					case "CondWait", "CondSignal", "CondBroadcast":
+						// a scheduling point in front of the operation; the call itself stays
+						r.stats["sync."+name]++
+						return &ast.CallExpr{Fun: &ast.FuncLit{Type: &ast.FuncType{Params: &ast.FieldList{}}, Body: &ast.BlockStmt{List: []ast.Stmt{
+							r.yield(n.Pos()), exprStmt(n)}}}}
 					default:
-						panic(fmt.Sprintf("%s: sync.%s.%s is not supported by the instrumenter", r.fset.Position(n.Pos()), nt.Obj().Name(), obj.Name()))
+						// sync.Pool, sync.Map and the like do not block: left as they are
+						return nil
 					}
 					var x ast.Expr = fun.X
 					if !ptr {
@@ -207,8 +213,12 @@ func (r *rw) call(n *ast.CallExpr) ast.Expr {
 					args := append([]ast.Expr{r.site(n.Pos()), x}, n.Args...)
 					return dsim(name, args...)
 				}
-				// embedded sync type reached through a local struct (e.g. struct{ sync.Mutex })
-				panic(fmt.Sprintf("%s: sync method through embedding is not supported by the instrumenter", r.fset.Position(n.Pos())))
+				// a sync method reached through embedding (e.g. struct{ sync.Mutex }): a scheduling
+				// point in front of it; a contended Lock would not be an engine park, so report it
+				if obj.Name() == "Lock" || obj.Name() == "RLock" {
+					panic(fmt.Sprintf("%s: sync lock through embedding is not supported by the instrumenter", r.fset.Position(n.Pos())))
+				}
+				return nil
 			}
 			if sel.Kind() == types.FieldVal && isNiladic(sel.Type()) {
 				r.stats["funcvar"]++
